@@ -153,7 +153,8 @@ pub fn mk_pool(rng: &mut Rng, pkt_addr: u64) -> Vec<PoolProg> {
         if reader {
             for slot in [1i16, 2, 32, 64] {
                 v.push(Insn::new(LDXDW, 2, 10, -8 * slot, 0));
-                v.push(Insn::new(XOR64_REG, 0, 2, 0, 0));
+                v.push(Insn::new(ADD64_REG, 0, 2, 0, 0)); // (a sum: equal slot values do not cancel)
+                v.push(Insn::new(MUL64_IMM, 0, 0, 0, 3));
             }
             // never compiled (compiled engines use the native stack, whose unwritten bytes are anything)
             v.push(Insn::new(JA, 0, 0, 1, 0));
